@@ -55,6 +55,9 @@
 
 #![cfg_attr(docsrs, feature(doc_cfg, doc_auto_cfg))]
 
+#[cfg(libp2p_verif)]
+pub mod verif_c23;
+
 #[cfg(feature = "tokio")]
 pub mod tokio {
     use std::sync::Arc;
